@@ -1007,6 +1007,10 @@ class NF:
             env2 = Env(mod, None, args, env.types, env.depth + 1, env.vdepth)
             return self.body(fn, env2)
         except Opaque:
+            if fn.name.startswith("_") and not fn.name.startswith("__") and env.depth > 0 and any(isinstance(n, ast.Try) for n in ast.walk(fn)):
+                # a private helper that handles exceptions, called from a method being evaluated: the method is then as unreadable as
+                # if it handled them itself (it stays a call of that method, which the rules may have a law for)
+                raise
             return ("call", fn.name, tuple(self.ev(a, env) for a in e.args if not isinstance(a, ast.Starred)),
                     tuple((k.arg, self.ev(k.value, env)) for k in e.keywords if k.arg))
 
